@@ -96,7 +96,8 @@ theorem c06_every_schedule_result (nodes : List Kpn.Node)
     (hall : Kpn.AllConsumed nodes s) : s.h = Kpn.eval nodes [] :=
   Kpn.run_terminal nodes hw s r hall
 
-/-- **Retiring blocks.** Both runners stop calling a block once its `eof()` has answered true after a wait verdict.
+/-- **Retiring blocks.** Both runners stop calling a block once its `eof()` has answered true after a wait verdict,
+or once the wait it reported can never be satisfied (the named stream's peer is gone and too little is left).
 With the set of retired blocks added to the graph state (a retired block takes no more steps): for EVERY
 interleaving of block steps and retirements in which each retirement was *sound* — every stream the block reads
 belongs to an already retired block, the block has consumed all of it and emitted everything its history function
